@@ -126,8 +126,62 @@ func genDID(t *rapid.T, label string) fieldVal {
 	return rapid.SampledFrom(cands).Draw(t, label)
 }
 
-// genC16Doc builds a valid document about did and injects 0-2 defects.
+// genC16DocStructural assembles a document from a pool of three method ids and three keys:
+// top-level methods (ids may repeat) and five relationship lists whose entries are embedded
+// methods or plain references in any order, so that ids collide across and inside lists.
+func genC16DocStructural(t *rapid.T, did string) (*didtypes.DIDDocument, string) {
+	keys := world.DIDKeys()
+	ids := []string{did + "#a", did + "#b", did + "#c"}
+	short := map[string]string{ids[0]: "a", ids[1]: "b", ids[2]: "c"}
+	vm := func(label string) *didtypes.VerificationMethod {
+		id := rapid.SampledFrom(ids).Draw(t, label+"-id")
+		ki := rapid.IntRange(0, 2).Draw(t, label+"-key")
+		return &didtypes.VerificationMethod{Id: id, Type: es256k2019, Controller: did, PublicKeyBase58: base58.Encode(keys[ki].Pub)}
+	}
+	doc := &didtypes.DIDDocument{Contexts: &didtypes.JSONStringOrStrings{ctxV1}, Id: did}
+	var desc []string
+	nTop := rapid.SampledFrom([]int{1, 1, 2, 2, 3, 4}).Draw(t, "ntop")
+	top := ""
+	for i := 0; i < nTop; i++ {
+		m := vm(fmt.Sprintf("top%d", i))
+		doc.VerificationMethods = append(doc.VerificationMethods, m)
+		top += short[m.Id]
+	}
+	desc = append(desc, "vm["+top+"]")
+	rel := func(name string, minN int) []didtypes.VerificationRelationship {
+		n := rapid.IntRange(minN, 3).Draw(t, name+"-n")
+		var out []didtypes.VerificationRelationship
+		d := ""
+		for i := 0; i < n; i++ {
+			if rapid.Bool().Draw(t, fmt.Sprintf("%s%d-embedded", name, i)) {
+				m := vm(fmt.Sprintf("%s%d", name, i))
+				out = append(out, didtypes.NewVerificationRelationshipDedicated(*m))
+				d += "E" + short[m.Id]
+			} else {
+				id := rapid.SampledFrom(ids).Draw(t, fmt.Sprintf("%s%d-ref", name, i))
+				out = append(out, didtypes.NewVerificationRelationship(id))
+				d += "R" + short[id]
+			}
+		}
+		if n > 0 {
+			desc = append(desc, name+"["+d+"]")
+		}
+		return out
+	}
+	doc.Authentications = rel("auth", 1)
+	doc.AssertionMethods = rel("assert", 0)
+	doc.KeyAgreements = rel("agree", 0)
+	doc.CapabilityInvocations = rel("capinv", 0)
+	doc.CapabilityDelegations = rel("capdel", 0)
+	return doc, "structural:" + strings.Join(desc, " ")
+}
+
+// genC16Doc builds a valid document about did and injects 0-2 defects, or assembles one
+// structurally.
 func genC16Doc(t *rapid.T, did string) (*didtypes.DIDDocument, string) {
+	if rapid.IntRange(0, 3).Draw(t, "structural") == 0 {
+		return genC16DocStructural(t, did)
+	}
 	keys := world.DIDKeys()
 	pk := base58.Encode(keys[0].Pub)
 	vm1 := &didtypes.VerificationMethod{Id: did + "#key1", Type: es256k2019, Controller: did, PublicKeyBase58: pk}
